@@ -17,7 +17,9 @@ RULE = ('Hypothesis: type-correct, name-resolved OAL function bodies (<= 12 stat
         'drawn initial population with links; statements: assignment, attribute write, create, delete, relate / '
         'relate-using / guarded unrelate, select any/many from instances (with where), select one/any/many related by '
         'chains of 1-3 hops (with where), if/elif/else, bounded while, for each, break, continue, return (incl. nested), '
-        'control stop; expressions over all arithmetic / comparison / boolean operators, cardinality / empty / not_empty. '
+        'control stop; a second family over a reflexive LINKED association (persons employ persons using employments, two halves told '
+        "apart by their phrases): relate / unrelate ... across R6.'phrase' using m in either direction and phrase, unrelate also from the other end, "
+        'read back from both ends through the link class; expressions over all arithmetic / comparison / boolean operators, cardinality / empty / not_empty. '
         'Oracle: the same AST executed by the reference evaluator (pbt/oalref.py) over the plain relational shadow: '
         'equal return value and equal final population (instances per class in order, every attribute, links from both '
         'directions). Programs the reference cannot give a meaning to are discarded and counted. non-trivial = program '
@@ -54,7 +56,7 @@ def cases(max_stmts, max_depth):
                                   'max_stmts': st.just(max_stmts), 'max_depth': st.just(max_depth)})
 
 
-def build(pop):
+def build(pop, SCHEMA=SCHEMA):
     """-> (domain, world, real instances by creation index)"""
     domain = ooaofooa.Domain(xtuml.IntegerGenerator())
     for c in SCHEMA['classes']:
@@ -191,6 +193,104 @@ def run_case(case, res=None):
                  classes=sorted('f:' + f for f in features) + ['compared'])
 
 
+# -- reflexive linked association: `relate a to b across R6.'phrase' using m` ----------------------------------------
+# persons W employ persons W, each employment is an instance of M (modelled the way BridgePoint models a linked
+# association between two ends of one class: two halves under one number, told apart by their phrases)
+RSCHEMA = {
+    'classes': [{'name': 'W', 'attrs': [['Id', 'UNIQUE_ID'], ['n', 'INTEGER']]},
+                {'name': 'M', 'attrs': [['Boss_Id', 'UNIQUE_ID'], ['Wrk_Id', 'UNIQUE_ID'], ['n', 'INTEGER']]}],
+    'assocs': [oalprog.A_(6, 'assoc', 'M', ['Boss_Id'], True, True, 'is employed by', 'W', ['Id'], False, 'employs'),
+               oalprog.A_(6, 'assoc', 'M', ['Wrk_Id'], True, True, 'employs', 'W', ['Id'], False, 'is employed by')],
+    'uniques': [{'cls': 'W', 'name': 'I1', 'attrs': ['Id']}],
+}
+PHR = ['employs', 'is employed by']
+
+
+def linked_cases():
+    return st.fixed_dictionaries({'linked': st.just(True), 'nw': st.integers(2, 4), 'nm': st.integers(1, 4),
+                                  'ops': st.lists(st.tuples(st.integers(0, 9), st.integers(0, 9), st.integers(0, 9), st.integers(0, 1),
+                                                            st.integers(0, 3)), min_size=1, max_size=7)})
+
+
+def linked_program(case):
+    """-> (ast, features): picks every instance by its n, then relates / unrelates persons using employments (a free
+    employment is related in the drawn direction and phrase; one in use is unrelated as it was related or, just as good,
+    from the other end under the other phrase), then reads what every person reaches from both ends"""
+    from .oalgen import N, block
+    V = lambda n: N('VariableAccessNode', variable_name=n)
+    I = lambda k: N('IntegerNode', value=str(k))
+    stmts = []
+    for cls, pre, cnt in (('W', 'w', case['nw']), ('M', 'm', case['nm'])):
+        for k in range(cnt):
+            stmts.append(N('SelectFromWhereNode', cardinality='any', variable_name='%s%d' % (pre, k), key_letter=cls,
+                           where_clause=N('BinaryOperationNode', left=N('FieldAccessNode', handle=N('SelectedAccessNode'), name='n'),
+                                          operator='==', right=I(k))))
+    used = {}
+    feats = set(['linked-reflexive'])
+    for k, a, b, ph, style in case['ops']:
+        free = [m for m in range(case['nm']) if m not in used]
+        busy = sorted(used)
+        if free and (not busy or k % 3):
+            m = free[k % len(free)]
+            a, b = a % case['nw'], b % case['nw']
+            used[m] = (a, b, ph)
+            stmts.append(N('RelateUsingNode', from_variable_name='w%d' % a, to_variable_name='w%d' % b, rel_id='R6',
+                           phrase="'%s'" % PHR[ph], using_variable_name='m%d' % m))
+            feats.add('relate-using')
+            if a == b:
+                feats.add('relate-using-self')
+        else:
+            m = busy[k % len(busy)]
+            a, b, ph = used.pop(m)
+            if style % 2:
+                a, b, ph = b, a, 1 - ph
+                feats.add('unrelate-using-other-end')
+            stmts.append(N('UnrelateUsingNode', from_variable_name='w%d' % a, to_variable_name='w%d' % b, rel_id='R6',
+                           phrase="'%s'" % PHR[ph], using_variable_name='m%d' % m))
+            feats.add('unrelate-using')
+    stmts.append(N('AssignmentNode', variable_access=V('acc'), expression=I(0)))
+    for k in range(case['nw']):
+        for ph in (0, 1):
+            step = lambda kl: N('NavigationStepNode', key_letter=kl, rel_id='R6', phrase="'%s'" % PHR[ph])
+            stmts.append(N('SelectRelatedNode', cardinality='many', variable_name='r', handle=V('w%d' % k),
+                           navigation_chain=N('NavigationListNode', children=[step('M'), step('W')])))
+            stmts.append(N('AssignmentNode', variable_access=V('acc'), expression=N(
+                'BinaryOperationNode', left=N('BinaryOperationNode', left=V('acc'), operator='*', right=I(5)), operator='+',
+                right=N('UnaryOperationNode', operator='cardinality', operand=V('r')))))
+            stmts.append(N('ForEachNode', instance_variable_name='e', set_variable_name='r', block=block([
+                N('AssignmentNode', variable_access=V('acc'), expression=N(
+                    'BinaryOperationNode', left=V('acc'), operator='+', right=N('FieldAccessNode', handle=V('e'), name='n')))])))
+    stmts.append(N('ReturnNode', expression=V('acc')))
+    return N('BodyNode', block=block(stmts)), feats
+
+
+def run_linked(case, res=None):
+    ast, features = linked_program(case)
+    text = text_of(ast)
+    info = dict(case, text=text)
+    pop = {'rows': [['W', {'n': k}] for k in range(case['nw'])] + [['M', {'n': k}] for k in range(case['nm'])], 'links': []}
+    domain, w, _real = build(pop, RSCHEMA)
+    try:
+        want = Evaluator(w).run_body(ast)
+    except Discard as d:
+        if res is not None:
+            res.discarded['linked: ' + d.reason] += 1
+        return
+    try:
+        with TimeLimit(20):
+            got = interpret.run_function(domain, 'check', text, {})
+    except TimeLimit.Expired:
+        raise Violation('interpreter-does-not-terminate', info, 'no result within 20 s')
+    except Exception as e:
+        raise Violation('interpreter-exception:' + exc_bucket(e), info, '%r\n%s' % (e, text))
+    real, back = compare_population(domain, w.sh, info, 'linked-reflexive')
+    if not value_eq(got, want, back):
+        raise Violation('return-value:linked-reflexive', info, 'returned %r, reference %r\n%s' % (got, want, text))
+    if res is not None:
+        nt = 'unrelate-using' in features and len(case['ops']) >= 3
+        res.case([text], nt, sample=text if nt and len(res.samples) < 2 else None, classes=sorted('f:' + f for f in features) + ['compared-linked'])
+
+
 def selftest():
     from .oalgen import N, block
     w = World(SCHEMA)
@@ -226,6 +326,16 @@ def run(ctx):
             raise Violation('harness-exception:' + exc_bucket(e), case, repr(e))
 
     hyp_run(ctx, res, cases(ctx.pick(12, 40), ctx.pick(3, 5)), body, ctx.pick(2500, 8000), label='programs')
+
+    def lbody(case):
+        try:
+            run_linked(case, res)
+        except Violation:
+            raise
+        except Exception as e:
+            raise Violation('harness-exception:' + exc_bucket(e), case, repr(e))
+
+    hyp_run(ctx, res, linked_cases(), lbody, ctx.pick(300, 3000), label='linked')
     total = res.evaluations + sum(res.discarded.values())
     if total and sum(res.discarded.values()) > 0.4 * total:
         from .build import HarnessError
@@ -234,4 +344,7 @@ def run(ctx):
 
 
 def replay(case):
-    run_case(case)
+    if case.get('linked'):
+        run_linked(case)
+    else:
+        run_case(case)
